@@ -362,20 +362,33 @@ class Justifications:
         if prog.lookup_method(cp, 'mts_ports') is None:
             return None
         sites = self.ex._ctor_sites(cpi)
-        builders = {sfn.fq for sfn, _c in sites}
         top = set()
         for sfn, _c in sites:
             f_ = sfn
             while f_.parent is not None:
                 f_ = f_.parent
             top.add(f_)
-        if len(top) != 1:
-            return None
-        builder = next(iter(top))
+        dpi = prog.cls('adv_shell.common', 'DznPortItf')
+        if len(top) == 1:
+            entries = list(top)
+        else:
+            # several functions construct ports (a factory class with one method per kind): the public functions that turn a
+            # DznPortItf into a CppPortItf are the entries; every constructing function must be reachable from one of them
+            def makes_port(f_):
+                rt = prog.ann_to_type(f_.module, f_.node.returns, f_.cls) if f_.node.returns is not None else ('any',)
+                takes = any(prog.ann_to_type(f_.module, a_.annotation, f_.cls) == t_cls(dpi.fq) for a_ in f_.params() if a_.annotation)
+                return rt == t_cls(cpi.fq) and takes and not f_.name.startswith('_')
+            entries = [f_ for f_ in prog.all_functions() if makes_port(f_)]
+            if not entries:
+                return None
+            reach = {f_.fq for f_ in self.ctx.cg.reachable(entries)} | {f_.fq for f_ in entries}
+            if any(f_.fq not in reach for f_ in top):
+                return None
+        builder = entries[0]
         try:
             ev = Evaluator(prog, self.ctx.cg)
             ports = ev.getattr(ev.param_sym('cpp_ports', t_cls(cp.fq)), 'mts_ports', builder, 1)
-            val = ev.eval_entry(builder)
+            vals = [ev.eval_entry(e_) for e_ in entries]
         except Exception:       # pylint: disable=broad-except
             return None
         if not (isinstance(ports, TList) and len(ports.items) == 1 and isinstance(ports.items[0], RepL)):
@@ -392,14 +405,15 @@ class Justifications:
                     return None          # a single-threaded port may be selected
                 continue
             n_mts += 1
-            obj = sc.select(val)
-            if not isinstance(obj, TObj) or obj.cls is not cpi or not isinstance(obj.fields.get('member_var'), TObj):
-                return None
+            for val in vals:
+                obj = sc.select(val)
+                if not isinstance(obj, TObj) or obj.cls is not cpi or not isinstance(obj.fields.get('member_var'), TObj):
+                    return None
         if not n_mts:
             return None
-        return (f'CppPorts.mts_ports rejects every single-threaded port kind, and {builder.qualname} - the only place CppPortItf '
-                f'is constructed - evaluated for each of the {n_mts} multi-threaded port kinds yields a port with a member '
-                f'variable object (template evaluation, verified on this run)')
+        return (f'CppPorts.mts_ports rejects every single-threaded port kind, and {", ".join(e_.qualname for e_ in entries)} - through '
+                f'which every CppPortItf is constructed - evaluated for each of the {n_mts} multi-threaded port kinds yields a port with '
+                f'a member variable object (template evaluation, verified on this run)')
 
     def _mts_implies_member_var_by_shape(self) -> Optional[str]:
         prog = self.ctx.prog
